@@ -11,6 +11,9 @@ import (
 
 func buildPipeline(g *scheduler.ExecutionGraph, stages []*stageDefinition, cfg *Config) (*scheduler.ExecutionGraph, error) {
 	for _, def := range stages {
+		if def == nil {
+			return nil, fmt.Errorf("pipeline has an empty stage definition")
+		}
 		var stageTask *task.Task
 		var stagePipeline *scheduler.ExecutionGraph
 
@@ -42,7 +45,7 @@ func buildPipeline(g *scheduler.ExecutionGraph, stages []*stageDefinition, cfg *
 			Variables:    variables.FromMap(def.Variables),
 		}
 
-		if stage.Dir != "" {
+		if stage.Dir != "" && stage.Task != nil {
 			stage.Task.Dir = stage.Dir
 		}
 
